@@ -18,6 +18,7 @@ import (
 	"io"
 	"net"
 	"net/netip"
+	"strings"
 	"syscall"
 	"testing"
 	"testing/synctest"
@@ -27,6 +28,12 @@ import (
 	"github.com/osrg/gobgp/v4/pkg/apiutil"
 	"github.com/osrg/gobgp/v4/pkg/config/oc"
 	"github.com/osrg/gobgp/v4/pkg/packet/bgp"
+)
+
+// the boundary sweep of c08Session: c08SweepN routes with padding c08SweepL0, c08SweepL0+1, …
+const (
+	c08SweepL0 = 4024
+	c08SweepN  = 50
 )
 
 type c08PipeConn struct {
@@ -139,7 +146,7 @@ func c08SessionCfg(r *vRand) *c08Cfg {
 	return c
 }
 
-func c08Session(t *testing.T, o *vOut, r *vRand, c *c08Cfg, spec *c08OpenSpec) {
+func c08Session(t *testing.T, o *vOut, r *vRand, c *c08Cfg, spec *c08OpenSpec, sweep bool) {
 	ctx := context.Background()
 	s := NewBgpServer()
 	go s.Serve()
@@ -153,6 +160,20 @@ func c08Session(t *testing.T, o *vOut, r *vRand, c *c08Cfg, spec *c08OpenSpec) {
 	if _, err := s.AddPath(apiutil.AddPathRequest{Paths: []*apiutil.Path{{Family: bgp.RF_IPv4_UC, Nlri: nlri, Attrs: []bgp.PathAttributeInterface{
 		bgp.NewPathAttributeOrigin(0), bgp.NewPathAttributeAsPath([]bgp.AsPathParamInterface{bgp.NewAs4PathParam(2, []uint32{80000, 65011})}), nh}}}}); err != nil {
 		t.Fatal(err)
+	}
+	// boundary sweep: routes whose UPDATEs differ by one octet each and straddle 4096 octets whatever
+	// the export adds (AS prepend, LOCAL_PREF, AS4_PATH, path identifier: 51..62 octets around the padding)
+	if sweep {
+		paths := []*apiutil.Path{}
+		for i := 0; i < c08SweepN; i++ {
+			n, _ := bgp.NewIPAddrPrefix(netip.MustParsePrefix(fmt.Sprintf("10.78.%d.0/24", i)))
+			paths = append(paths, &apiutil.Path{Family: bgp.RF_IPv4_UC, Nlri: n, Attrs: []bgp.PathAttributeInterface{
+				bgp.NewPathAttributeOrigin(0), bgp.NewPathAttributeAsPath(nil), nh,
+				bgp.NewPathAttributeUnknown(bgp.BGP_ATTR_FLAG_OPTIONAL|bgp.BGP_ATTR_FLAG_TRANSITIVE, 250, make([]byte, c08SweepL0+i))}})
+		}
+		if _, err := s.AddPath(apiutil.AddPathRequest{Paths: paths}); err != nil {
+			t.Fatal(err)
+		}
 	}
 	if err := s.AddPeer(ctx, &api.AddPeerRequest{Peer: oc.NewPeerFromConfigStruct(c.neighbor())}); err != nil {
 		o.stat("session_addpeer_refused", 1)
@@ -286,9 +307,10 @@ func c08Session(t *testing.T, o *vOut, r *vRand, c *c08Cfg, spec *c08OpenSpec) {
 	}
 	confl := rm.apConfl[bgp.RF_IPv4_UC]
 	gotUpdate := false
+	sweepLens := map[int]bool{}
 	var kaTimes []time.Duration
 	var holdAt time.Duration = -1
-	for n := 0; n < 400; n++ {
+	for n := 0; n < 500; n++ {
 		raw, err = c08ReadMsg(cli, 70000*time.Second)
 		if err != nil {
 			break
@@ -296,7 +318,7 @@ func c08Session(t *testing.T, o *vOut, r *vRand, c *c08Cfg, spec *c08OpenSpec) {
 		switch raw[18] {
 		case bgp.BGP_MSG_UPDATE:
 			if len(raw) > 4096 && !rm.ext {
-				o.fail("sent-oversized-message", c08Detail(c, opens, fmt.Sprint(len(raw))))
+				o.fail("sent-oversized-message", c08Detail(c, opens, fmt.Sprintf("the server sent a %d-octet UPDATE to a peer that did not announce Extended Message", len(raw))))
 			}
 			// decode under the options the PROPERTY prescribes; a wrong encoding does not decode to the route
 			opt := &bgp.MarshallingOption{Use2ByteAS: !rm.as4}
@@ -313,6 +335,10 @@ func c08Session(t *testing.T, o *vOut, r *vRand, c *c08Cfg, spec *c08OpenSpec) {
 			up := u.Body.(*bgp.BGPUpdate)
 			if len(up.NLRI) == 0 {
 				continue // end-of-rib
+			}
+			if len(up.NLRI) == 1 && strings.HasPrefix(up.NLRI[0].NLRI.String(), "10.78.") {
+				sweepLens[len(raw)] = true
+				continue
 			}
 			gotUpdate = true
 			ok := len(up.NLRI) == 1 && up.NLRI[0].NLRI.String() == "10.77.0.0/24"
@@ -362,6 +388,28 @@ func c08Session(t *testing.T, o *vOut, r *vRand, c *c08Cfg, spec *c08OpenSpec) {
 	_ = t0
 	if confl {
 		o.stat("session_update_check_skipped_conflicting_addpath", 1)
+	}
+	if sweep && v4 && gotUpdate && !confl {
+		// the sweep's UPDATEs have consecutive lengths: without Extended Message exactly those up to
+		// 4096 octets arrive (so the longest seen is 4096 to the octet), with it all of them
+		mxSeen := 0
+		for l := range sweepLens {
+			mxSeen = max(mxSeen, l)
+		}
+		o.stat(fmt.Sprintf("session_sweep_ext_%d", c08B(rm.ext)), 1)
+		if !rm.ext {
+			o.ask(fmt.Sprint(mxSeen), "sendwrites 2 %d", mxSeen)
+			o.ask(fmt.Sprint(c08B(sweepLens[mxSeen+1])*(mxSeen+1)), "sendwrites 2 %d", mxSeen+1)
+			if mxSeen != 4096 {
+				class := "send-refused-fitting-message"
+				if mxSeen > 4096 {
+					class = "sent-oversized-message"
+				}
+				o.fail(class, c08Detail(c, opens, fmt.Sprintf("longest UPDATE of the one-octet sweep on the wire: %d octets (%d distinct lengths), session maximum 4096", mxSeen, len(sweepLens))))
+			}
+		} else if len(sweepLens) != c08SweepN {
+			o.fail("send-refused-fitting-message", c08Detail(c, opens, fmt.Sprintf("%d of %d sweep routes arrived although Extended Message is negotiated", len(sweepLens), c08SweepN)))
+		}
 	}
 	if v4 && !gotUpdate && !confl {
 		o.fail("session-no-update-sent", c08Detail(c, opens, "IPv4 unicast negotiated but the local route was not advertised"))
@@ -510,7 +558,8 @@ func TestVerifC08Session(t *testing.T) {
 			spec.hold = uint16(r.pick(0, 3, 6, 9, 30, 90, 180, 65535))
 			spec.id = 0x0a090909
 		}
-		synctest.Test(t, func(t *testing.T) { c08Session(t, o, r, c, spec) })
+		sweep := i%2 == 1
+		synctest.Test(t, func(t *testing.T) { c08Session(t, o, r, c, spec, sweep) })
 		if i%3 == 0 {
 			c2, spec2 := *c, *spec
 			c2.hold, c2.ka3, spec2.hold = 90, 90, 90 // the scripted peer sends no keepalives meanwhile
